@@ -98,6 +98,10 @@ func c20Families() []costFamily {
 		{"comments-on-one-long-line", func(n int) string { return "SELECT 1" + rep(" /*c*/ + 1", n) }, 500},
 		{"compound-opener-then-comment", func(n int) string { return "SELECT " + rep("LEFT /*c*/ x ", n) }, 500},
 		{"blanks-then-comments", func(n int) string { return "SELECT 1\n" + rep("    ", n) + rep("/**/", n) }, 500},
+		{"blanks-code-then-comments", func(n int) string { return "SELECT 1\n" + rep("    ", n) + "x " + rep("/**/", n) }, 500},
+		{"opener-calls-one-line", func(n int) string { return "SELECT " + rep("LEFT(a,1), ", n) + "1 FROM t" }, 500},
+		{"opener-words-one-line", func(n int) string { return "SELECT " + rep("natural, full, ", n) + "1 FROM t" }, 500},
+		{"dollar-words-one-line", func(n int) string { return "SELECT 1 " + rep("$abc ", n) }, 500},
 		{"long-dollar-tag", func(n int) string { tag := "$" + rep("t", n) + "$"; return "SELECT " + tag + rep(" $", n) + " " + tag }, 500},
 		{"qualified-name-parts", func(n int) string { return "SELECT * FROM a" + rep(".a", n) }, 500},
 		{"chain-slice", func(n int) string { return "SELECT a" + rep("[1:2]", n) + " FROM t" }, 500},
